@@ -175,6 +175,30 @@ void WRAP(laqgs)(SuperMatrix *A, real_t *r, real_t *c, real_t rowcnd, real_t col
     if (!quiet) fprintf(out, "#R ev laqgs %d\n", (int) *equed);
 }
 
+/* every vector exchanged with the estimator INSIDE ?gscon (all precisions): "ge_in kase x.." = what ?gscon hands to ?lacon_ (its reply to
+   the previous request), "ge_out kase x.." = what ?lacon_ asks for next */
+static void ge_log(const char *name, long kase, const val_t *x, long n)
+{
+    long i;
+    if (quiet || !ctx_gscon) return;
+    fprintf(out, "#R ev %s %ld", name, kase);
+    for (i = 0; i < n * NV; ++i) fprintf(out, " %a", (double) ((const real_t *) x)[i]);
+    fprintf(out, "\n");
+}
+#if VP_PREC == 0
+extern int_t __real_slacon_(int_t *, float *, float *, int_t *, float *, int_t *);
+int_t __wrap_slacon_(int_t *n, float *v, float *x, int_t *isgn, float *est, int_t *kase)
+{ int_t r; ge_log("ge_in", (long) *kase, x, *n); r = __real_slacon_(n, v, x, isgn, est, kase); ge_log("ge_out", (long) *kase, x, *n); return r; }
+#elif VP_PREC == 2
+extern int_t __real_clacon_(int_t *, complex *, complex *, float *, int_t *);
+int_t __wrap_clacon_(int_t *n, complex *v, complex *x, float *est, int_t *kase)
+{ int_t r; ge_log("ge_in", (long) *kase, x, *n); r = __real_clacon_(n, v, x, est, kase); ge_log("ge_out", (long) *kase, x, *n); return r; }
+#elif VP_PREC == 3
+extern int_t __real_zlacon_(int_t *, doublecomplex *, doublecomplex *, double *, int_t *);
+int_t __wrap_zlacon_(int_t *n, doublecomplex *v, doublecomplex *x, double *est, int_t *kase)
+{ int_t r; ge_log("ge_in", (long) *kase, x, *n); r = __real_zlacon_(n, v, x, est, kase); ge_log("ge_out", (long) *kase, x, *n); return r; }
+#endif
+
 #if VP_PREC == 1
 extern int_t __real_dlacon_(int_t *, double *, double *, int_t *, double *, int_t *);
 extern int_t __real_sp_dtrsv(char *, char *, char *, SuperMatrix *, SuperMatrix *, double *, int_t *);
@@ -182,10 +206,12 @@ int_t __wrap_dlacon_(int_t *n, double *v, double *x, int_t *isgn, double *est, i
 {
     int_t r;
     int lg = (!quiet && logvec);
+    ge_log("ge_in", (long) *kase, x, *n);
     if (lg) { fprintf(out, "#R ev lacon_in %ld %a", (long) *kase, *est);
               for (long i = 0; i < *n; ++i) fprintf(out, " %a", x[i]);
               fprintf(out, "\n"); }
     r = __real_dlacon_(n, v, x, isgn, est, kase);
+    ge_log("ge_out", (long) *kase, x, *n);
     if (lg) { long i;
               fprintf(out, "#R ev lacon_out %ld %a", (long) *kase, *est);
               for (i = 0; i < *n; ++i) fprintf(out, " %a", x[i]);
